@@ -548,6 +548,13 @@ def vary(draw, pd, body):
     pd = copy.deepcopy(pd)
     rgs = pd["ranges"]
     how = draw(st.sampled_from(VARIATIONS))
+    inner = [r for r in rgs if r["body"].get("k") == "mod" and r["body"]["m"] in ("sum", "product", "trans")]
+    if inner and draw(st.integers(0, 2)) == 0:
+        # the same modifier with ONE ARGUMENT varied (a range added to it, its start moved, ...)
+        b = draw(st.sampled_from(inner))["body"]
+        i = draw(st.integers(0, len(b["args"]) - 1))
+        b["args"][i] = vary(draw, b["args"][i], body)
+        return pd
     last = max([0.0] + [float(r["s"]) for r in rgs if r["m"] is not None])
     if how == "add_range" or (how in ("drop_range", "shift_start") and len(rgs) < 2):
         rgs.append({"m": draw(st.sampled_from([">", ">="])), "s": round(last + draw(fl(0.2, 4.0, sig=3)), 3),
